@@ -330,6 +330,79 @@ func ruleC06Comment(p *Prog, a *Anchors, r *Report) {
 			r.Bad("node:silent", p.Pos(f.Pos()), "the comment node's Execute performs %d call(s): comments must emit nothing and evaluate nothing", calls)
 		}
 	}
+	// the search for the comment terminator works on the input AFTER the opener was skipped
+	if run := p.Method("lexer", "run"); run != nil {
+		// the store that skips the opener: pos += 2 guarded by HasPrefix(input[pos:], "{#")
+		var skip *ssa.Store
+		for _, b := range run.Blocks {
+			for _, in := range b.Instrs {
+				st, ok := in.(*ssa.Store)
+				if !ok || !isFieldAddrOf(st.Addr, "lexer", "pos") {
+					continue
+				}
+				g := Guarded(in, func(c ssa.Value, pol bool) bool {
+					call, ok := c.(*ssa.Call)
+					if !ok || !pol || call.Common().StaticCallee() == nil || p.extName(call.Common().StaticCallee()) != "strings.HasPrefix" {
+						return false
+					}
+					s, isC := constString(call.Common().Args[1])
+					return isC && s == "{#"
+				})
+				if g && skip == nil {
+					skip = st
+				}
+			}
+		}
+		found := false
+		for _, b := range run.Blocks {
+			for _, in := range b.Instrs {
+				call, ok := in.(*ssa.Call)
+				if !ok || call.Common().StaticCallee() == nil {
+					continue
+				}
+				n := p.extName(call.Common().StaticCallee())
+				if n != "strings.HasPrefix" && n != "strings.Index" && n != "strings.Contains" {
+					continue
+				}
+				s, isC := constString(call.Common().Args[1])
+				if !isC || s != "#}" {
+					continue
+				}
+				found = true
+				// the searched text: input[X:] where X is loaded after the skip
+				okPos := false
+				var walk func(v ssa.Value, d int)
+				walk = func(v ssa.Value, d int) {
+					if d > 5 {
+						return
+					}
+					switch x := v.(type) {
+					case *ssa.Slice:
+						if ld, isLd := x.Low.(*ssa.UnOp); isLd && isFieldAddrOf(ld.X, "lexer", "pos") && skip != nil && (Dominates(skip, ld) || ReachesFromInstr(skip, ld) && !ReachesFromInstrAvoiding(run.Blocks[0], ld, skip)) {
+							okPos = true
+						}
+					case *ssa.UnOp:
+						if sv := localLoadValue(x); sv != nil {
+							walk(sv, d+1)
+						}
+					case *ssa.Phi:
+						for _, e := range x.Edges {
+							walk(e, d+1)
+						}
+					}
+				}
+				walk(call.Common().Args[0], 0)
+				if okPos {
+					r.OK("lexer:terminator-search", p.InstrPos(in), "the comment terminator is searched in the input after the opener")
+				} else {
+					r.Bad("lexer:terminator-search", p.InstrPos(in), "the search for `#}` works on text that still contains (part of) the opener `{#`: `{#}` is taken for a complete comment and the rest of the comment is rendered/evaluated")
+				}
+			}
+		}
+		if !found {
+			r.Unk("lexer:terminator-search", p.Pos(run.Pos()), "no search for the comment terminator `#}` found")
+		}
+	}
 	// the lexer's {# #} handling emits no token for the comment: between detecting "{#" and the closing ignore() no emit
 	run := p.Method("lexer", "run")
 	if run != nil {
@@ -483,4 +556,9 @@ func ruleC06Verbatim(p *Prog, a *Anchors, r *Report) {
 			r.Bad("tokenize:caller "+p.FuncName(e.Site.Parent()), p.InstrPos(e.Site), "tokenize() is called outside the lexer's run loop")
 		}
 	}
+}
+
+// ReachesFromInstrAvoiding: can control reach `target` from the start of block `from` without executing `avoid`?
+func ReachesFromInstrAvoiding(from *ssa.BasicBlock, target ssa.Instruction, avoid ssa.Instruction) bool {
+	return !MustPassFrom(from, 0, target, func(x ssa.Instruction) bool { return x == avoid })
 }
